@@ -132,6 +132,9 @@ pub fn run(tier: Tier) -> i32 {
                             rep.violation(k, format!("{} :: times(frames)={:?} nstate={} durations={:?}", what, times, ns, d), json!({"times_frames": times, "nstate": ns, "params": params.iter().map(|m| [m.0, m.1]).collect::<Vec<_>>()}));
                         }
                         let tot: usize = d.iter().sum();
+                        if code % 16 == 0 {
+                            rep.outcome(fnv(format!("{:?}", d).as_bytes()));
+                        }
                         if tot == d.len() {
                             infeasible.fetch_add(1, Ordering::Relaxed);
                         }
